@@ -255,6 +255,51 @@ def b_seam2(ks, lits, spell_free=False):
     return build
 
 
+NEST_CORES = [('^', 8), 1, ('^', 9), ('*', 1, -2), (':', ('^', 8), 2), ('f', 4, 2)]
+
+
+def _nest(ch, cores, other):
+    """an operand wrapped directly in 0 ... 6 complement operators #( #( ... ) ), alone or as an operand"""
+    core = ch.choose('core', cores, free=True)
+    depth = ch.choose('depth', [1, 2, 3, 4, 5, 6, 0], free=True)
+    t = core
+    for _ in range(depth):
+        t = ('#', t)
+    ctx = ch.choose('context', ['alone', 'union-left', 'union-right', 'inter-left', 'inter-right', 'in-complement'],
+                    free=True)
+    if ctx == 'union-left':
+        t = (':', t, other)
+    elif ctx == 'union-right':
+        t = (':', other, t)
+    elif ctx == 'inter-left':
+        t = ('*', t, other)
+    elif ctx == 'inter-right':
+        t = ('*', other, t)
+    elif ctx == 'in-complement':
+        t = ('#', ('*', other, t))
+    return t
+
+
+def b_nested(ch):
+    """directly nested complement operators (the parity of the nesting decides), seam level"""
+    t = _nest(ch, NEST_CORES, 3)
+    return SeamState(spell(ch, t), t)
+
+
+def b_nested_deck(ch):
+    """the same through the whole converter"""
+    st = c01.St('c11 nested complements')
+    t = _nest(ch, [('^', 8), 1, ('*', 1, -2), (':', ('^', 8), 2), ('f', 6, 1)], 4)
+    text = spell(ch, t)
+    aux = (':', 2, -4)
+    st.cells = ['1 0 %s imp:n=1' % text, '8 0 %s imp:n=1' % render_expr(aux), '9 0 #1 #8 imp:n=1']
+    st.cell_exprs = {1: t, 8: aux, 9: ('*', ('^', 1), ('^', 8))}
+    st.imps = {1: 1, 8: 1, 9: 1}
+    st.used = sorted(set(c01.used_surfaces([t, aux])))
+    st.surfs = [c01.SURF_CARDS[s] for s in st.used]
+    return st
+
+
 def scenarios(tier):
     if tier == 'quick':
         return [
@@ -268,6 +313,8 @@ def scenarios(tier):
                 None, None, 'k<=2 over 2 literals, all spelling combinations'),
             Scn('deck-k3', b_deck([2, 1, 3], False), 3, 3, 'spelled cells through the whole converter'),
             Scn('seam-long', b_long, 0, 1, 'expressions of 12 / 40 / 120 operands, nesting up to 60 deep'),
+            Scn('seam-nested', b_nested, 2, 3, 'operands under 0 ... 6 directly nested #( ), spelling deviations <= 2 / 3'),
+            Scn('deck-nested', b_nested_deck, 1, 2, 'the same through the whole converter'),
         ]
     return [
         Scn('seam-k2-spell3', b_seam2([1, 2], SEAM_LITS), 3, 3,
@@ -281,6 +328,8 @@ def scenarios(tier):
             None, None, 'k<=2 over 3 literals incl. #( ), all spelling combinations'),
         Scn('deck-k3', b_deck([2, 1, 3], False), 3, 3, 'spelled cells through the whole converter'),
         Scn('seam-long', b_long, 1, 1, 'expressions of 12 / 40 / 120 operands, nesting up to 60 deep'),
+        Scn('seam-nested', b_nested, 2, 3, 'operands under 0 ... 6 directly nested #( ), spelling deviations <= 2 / 3'),
+        Scn('deck-nested', b_nested_deck, 1, 2, 'the same through the whole converter'),
     ]
 
 
